@@ -492,6 +492,20 @@ def _neutral(model, pname, ann):
              "start": "a", "end": "z", "is_global": False, "transform": None}
     if pname in table:
         return table[pname]
+    # parameters the table does not know (API additions): a neutral value of the annotated type
+    a = ann.replace("'", "").replace('"', "").replace(" ", "")
+    if "Pregex" in a:
+        return other()
+    if a in ("str", "_Union[str]") or a.endswith("[str]") and a.startswith(("_Optional", "Optional")) is False and a == "str":
+        return "ab"
+    if a == "str":
+        return "ab"
+    if a == "int":
+        return 2
+    if a == "bool":
+        return False
+    if a.startswith(("_Optional[", "Optional[")):
+        return None
     return _NO
 
 
@@ -526,7 +540,7 @@ def _sweep_core(ctx, model, exc_classes):
         label, f, kind, ci = ent
         n_cases = 0
         a = f.node.args
-        params = [p.arg for p in a.posonlyargs + a.args if p.arg != "self"]
+        params = [p.arg for p in a.posonlyargs + a.args if p.arg != "self" and not (f.is_classmethod and p.arg == "cls")]
         anns = {p.arg: (ast.unparse(p.annotation) if p.annotation is not None else "") for p in a.posonlyargs + a.args}
         doc = documented(f) | (documented(ci.methods["__init__"]) if ci is not None and "__init__" in ci.methods else set())
         var = a.vararg.arg if a.vararg is not None else None
@@ -560,6 +574,9 @@ def _sweep_core(ctx, model, exc_classes):
                     args += extra
                 if kind == "ctor":
                     return it.construct(ci, args)
+                if f.is_classmethod:
+                    from ..interp import ClassRef as _ClassRef
+                    return it.call(FuncRef(f, _ClassRef(f.cls), True), args)
                 recv = make_operand(model, "st", "Other", True)
                 return it.call(FuncRef(f, recv, True), args)
             try:
